@@ -39,9 +39,25 @@ def mm(prop, tier, name, configs):
     return stage(M.mm_stage, prop, tier, name, configs)
 
 
+def inj(prop, tier):
+    return stage(M.inject_stage, prop, tier, "inject_" + tier[0])
+
+
 def tr(prop, tier, name, seed):
     runs, nops = (200, 30) if tier == "quick" else (4000, 40)
     return stage(M.trace_stage, prop, tier, name, seed, runs, nops)
+
+
+def nested_frames(prop, tier):
+    """callbacks nested two levels deep, exhaustively (restricted operation set)"""
+    ops = ["New", "Clone", "CloneArc", "Drop", "IntoOff", "FromOff", "Borrow", "Enter", "Exit", "MakeMut", "IsUnique"]
+    return sized(prop, tier, "sized_nested_frames_" + tier[0], ops, 4 if tier == "quick" else 5, 2, 2, hows=("new",))
+
+
+def thin_lengths(prop, tier):
+    """the thin family with slice lengths up to 6 (restricted operation set, 2 slots)"""
+    ops = ["NewFat", "NewThin", "Clone", "Drop", "IntoThin", "FromThin", "ProtFromThin", "ProtIntoThin", "ThinIntoRaw", "ThinFromRaw", "GetMut"]
+    return thin(prop, tier, "thin_lengths_" + tier[0], ops, 2, 2, 1, 6)
 
 
 def long_walks(prop, tier, seed):
@@ -59,12 +75,12 @@ def c02(tier, seed):
         return [mm("C02", tier, "mm_clone_drop_q", [("c02_2x3", ops, 2, 3, 2, False), ("c02_3x2", ops, 3, 2, 1, False),
                                                      ("c02_2x4", ops + ["count"], 2, 4, 1, False),
                                                      ("c02_2x3u", ops + ["try_unwrap"], 2, 3, 2, False)]),
-                tr("C02", tier, "threads_q", seed)]
+                tr("C02", tier, "threads_q", seed), inj("C02", tier)]
     return [mm("C02", tier, "mm_clone_drop_t", [("c02_2x3", ops, 2, 3, 2, False), ("c02_3x3", ops, 3, 3, 1, False),
                                                  ("c02_4x2", ops, 4, 2, 1, False), ("c02_2x5", ops, 2, 5, 2, False),
                                                  ("c02_3x2h", ops + ["count"], 3, 2, 1, True),
                                                  ("c02_3x2u", ops + ["try_unwrap"], 3, 2, 1, False)]),
-            tr("C02", tier, "threads_t", seed)]
+            tr("C02", tier, "threads_t", seed), inj("C02", tier)]
 
 
 def lay(prop, tier, name):
@@ -84,7 +100,7 @@ def c11(tier, seed):
 
 
 THIN_MODULES = ["Thin.tla", "MC_Thin.tla"]
-THIN_OPS = ["NewFat", "NewThin", "Clone", "Drop", "IntoThin", "FromThin", "ProtFromThin", "ProtIntoThin", "ThinIntoRaw",
+THIN_OPS = ["NewFat", "NewThin", "Clone", "CloneFrom", "Drop", "IntoThin", "FromThin", "ProtFromThin", "ProtIntoThin", "ThinIntoRaw",
             "ThinFromRaw", "ThinIntoPtr", "ThinFromPtr", "Enter", "Exit", "Replace", "Swap", "GetMut"]
 
 
@@ -132,7 +148,7 @@ def c07(tier, seed):
     n = 3 if tier == "quick" else 4
     return [stage(CT.ctor_stage, "C07", tier, "ctor_faults_" + tier[0], ["fhi", "thin", "collect", "vec", "observe", "release"], True),
             sized("C07", tier, "sized_panics_" + tier[0], frames, n, 2, 2 if tier == "thorough" else 1, hows=("new", "newB")),
-            thin("C07", tier, "thin_panics_" + tier[0], THIN_OPS, n, 2, 1, 1),
+            thin("C07", tier, "thin_panics_" + tier[0], THIN_OPS, n, 2, 1, 1), nested_frames("C07", tier),
             thin("C07", tier, "thin_walks_" + tier[0], THIN_OPS, 6, 4, 2, 3, simulate=((1000, 40, seed) if tier == "quick" else (20000, 80, seed)))]
 
 
@@ -161,12 +177,12 @@ def slices(prop, tier, name, nslots, nblocks, maxlen, simulate=None):
 
 def c10(tier, seed):
     if tier == "quick":
-        return [thin("C10", tier, "thin_q", THIN_OPS, 3, 2, 1, 1),
+        return [thin("C10", tier, "thin_q", THIN_OPS, 3, 2, 1, 1), thin_lengths("C10", tier),
                 thin("C10", tier, "thin_walks_q", THIN_OPS, 6, 4, 2, 3, simulate=(1000, 40, seed)),
-                lay("C10", tier, "layout_matrix_q")]
-    return [thin("C10", tier, "thin_t", THIN_OPS, 4, 2, 2, 2),
+                lay("C10", tier, "layout_matrix_q"), inj("C10", tier)]
+    return [thin("C10", tier, "thin_t", THIN_OPS, 4, 2, 2, 2), thin_lengths("C10", tier),
             thin("C10", tier, "thin_walks_t", THIN_OPS, 6, 4, 2, 3, simulate=(20000, 80, seed)),
-            lay("C10", tier, "layout_matrix_t")]
+            lay("C10", tier, "layout_matrix_t"), inj("C10", tier)]
 
 
 def c01(tier, seed):
@@ -178,14 +194,15 @@ def c01(tier, seed):
                 slices("C01", tier, "slices_life_q", 3, 2, 2),
                 # the same graph against the no_std build of the crate (configuration B)
                 sized("C01", tier, "sized_life_nostd_q", BASE + CONV_CORE + ["Borrow", "Enter", "Exit", "TryUnique", "MakeMut", "TryUnwrap"], 3, 2, 1, harness_cfg="b"),
-                mm("C01", tier, "mm_clone_drop_q", [("c01_2x3", ["clone", "read", "drop"], 2, 3, 2, False)])] + long_walks("C01", tier, seed)
+                mm("C01", tier, "mm_clone_drop_q", [("c01_2x3", ["clone", "read", "drop"], 2, 3, 2, False)]),
+                nested_frames("C01", tier), thin_lengths("C01", tier), inj("C01", tier)] + long_walks("C01", tier, seed)
     return [sized("C01", tier, "sized_life_t", BASE + CONV + BORROW + ["TryUnique"], 4, 2, 2),
             sized("C01", tier, "sized_life_t5", BASE + CONV_CORE + ["Enter", "Exit"], 5, 2, 1, hows=("new", "newB")),
             walks("C01", tier, seed),
             thin("C01", tier, "thin_life_t", THIN_OPS, 4, 2, 2, 2),
             slices("C01", tier, "slices_life_t", 4, 2, 2), slices("C01", tier, "slices_walks_t", 6, 4, 3, simulate=(5000, 60, seed)),
             sized("C01", tier, "sized_life_nostd_t", BASE + CONV + BORROW + UNIQ + COW + UNWRAP, 3, 2, 1, harness_cfg="b"),
-            mm("C01", tier, "mm_clone_drop_t", [("c01_2x3", ["clone", "read", "drop"], 2, 3, 2, False), ("c01_3x3", ["clone", "read", "drop"], 3, 3, 1, False)])] + long_walks("C01", tier, seed)
+            mm("C01", tier, "mm_clone_drop_t", [("c01_2x3", ["clone", "read", "drop"], 2, 3, 2, False), ("c01_3x3", ["clone", "read", "drop"], 3, 3, 1, False)]), inj("C01", tier)] + long_walks("C01", tier, seed)
 
 
 def c03(tier, seed):
@@ -194,11 +211,11 @@ def c03(tier, seed):
     if tier == "quick":
         return [sized("C03", tier, "sized_uniq_q", ops, 3, 2, 1),
                 mm("C03", tier, "mm_uniq_q", [("c03_2x3", mops, 2, 3, 2, False), ("c03_3x2", mops, 3, 2, 1, False)]),
-                tr("C03", tier, "threads_q", seed)]
+                tr("C03", tier, "threads_q", seed), inj("C03", tier)]
     return [sized("C03", tier, "sized_uniq_t", ops + ["Unsize", "IntoRawDyn", "FromRawDyn"], 4, 2, 1),
             mm("C03", tier, "mm_uniq_t", [("c03_2x4", mops, 2, 4, 2, False), ("c03_3x3", mops, 3, 3, 1, False),
                                           ("c03_3x2h", mops, 3, 2, 1, True)]),
-            tr("C03", tier, "threads_t", seed)]
+            tr("C03", tier, "threads_t", seed), inj("C03", tier)]
 
 
 def c04(tier, seed):
@@ -206,10 +223,10 @@ def c04(tier, seed):
     if tier == "quick":
         return [sized("C04", tier, "sized_count_q", ops, 3, 2, 1), walks("C04", tier, seed),
                 thin("C04", tier, "thin_count_q", THIN_OPS, 3, 2, 1, 1), slices("C04", tier, "slices_count_q", 3, 2, 2),
-                tr("C04", tier, "threads_q", seed), stage(AP.ind_stage, "C04", tier, "apalache_inductive_q")] + long_walks("C04", tier, seed)
+                tr("C04", tier, "threads_q", seed), inj("C04", tier), stage(AP.ind_stage, "C04", tier, "apalache_inductive_q")] + long_walks("C04", tier, seed)
     return [sized("C04", tier, "sized_count_t", ops, 4, 2, 2), walks("C04", tier, seed),
             thin("C04", tier, "thin_count_t", THIN_OPS, 4, 2, 2, 2), slices("C04", tier, "slices_count_t", 4, 2, 2),
-            tr("C04", tier, "threads_t", seed), stage(AP.ind_stage, "C04", tier, "apalache_inductive_t")] + long_walks("C04", tier, seed)
+            tr("C04", tier, "threads_t", seed), inj("C04", tier), stage(AP.ind_stage, "C04", tier, "apalache_inductive_t")] + long_walks("C04", tier, seed)
 
 
 def c08(tier, seed):
@@ -218,10 +235,10 @@ def c08(tier, seed):
     if tier == "quick":
         return [sized("C08", tier, "sized_cow_q", ops, 3, 3, 1, hows=("new", "newB")),
                 mm("C08", tier, "mm_cow_q", [("c08_2x3", mops, 2, 3, 2, False), ("c08_3x2", mops, 3, 2, 1, False)]),
-                tr("C08", tier, "threads_q", seed)]
+                tr("C08", tier, "threads_q", seed), inj("C08", tier)]
     return [sized("C08", tier, "sized_cow_t", ops, 4, 3, 1, hows=("new", "newB")),
             mm("C08", tier, "mm_cow_t", [("c08_2x4", mops, 2, 4, 2, False), ("c08_3x3", mops, 3, 3, 1, False)]),
-            tr("C08", tier, "threads_t", seed)]
+            tr("C08", tier, "threads_t", seed), inj("C08", tier)]
 
 
 def c09(tier, seed):
@@ -230,10 +247,10 @@ def c09(tier, seed):
     if tier == "quick":
         return [sized("C09", tier, "sized_unwrap_q", ops, 3, 2, 1),
                 mm("C09", tier, "mm_unwrap_q", [("c09_2x3", mops, 2, 3, 2, False), ("c09_3x2", mops, 3, 2, 1, False)]),
-                tr("C09", tier, "threads_q", seed)]
+                tr("C09", tier, "threads_q", seed), inj("C09", tier)]
     return [sized("C09", tier, "sized_unwrap_t", ops, 4, 2, 1),
             mm("C09", tier, "mm_unwrap_t", [("c09_2x4", mops, 2, 4, 2, False), ("c09_3x3", mops, 3, 3, 1, False)]),
-            tr("C09", tier, "threads_t", seed)]
+            tr("C09", tier, "threads_t", seed), inj("C09", tier)]
 
 
 def c12(tier, seed):
@@ -241,10 +258,10 @@ def c12(tier, seed):
     if tier == "quick":
         return [sized("C12", tier, "sized_union_q", ops, 4, 2, 1, hows=("new", "newB")), lay("C12", tier, "layout_matrix_q"),
                 stage(CM.compare_stage, "C12", tier, "union_variants_q", only=["different variants"]),
-                stage(CT.ctor_stage, "C12", tier, "union_release_q", ["union_drop"], True)]
+                stage(CT.ctor_stage, "C12", tier, "union_release_q", ["union_drop"], True), inj("C12", tier)]
     return [sized("C12", tier, "sized_union_t", ops, 5, 2, 1, hows=("new", "newB")), lay("C12", tier, "layout_matrix_t"),
             stage(CM.compare_stage, "C12", tier, "union_variants_t", only=["different variants"]),
-            stage(CT.ctor_stage, "C12", tier, "union_release_t", ["union_drop"], True)]
+            stage(CT.ctor_stage, "C12", tier, "union_release_t", ["union_drop"], True), inj("C12", tier)]
 
 
 GRAPH_ASSUME = [
@@ -286,7 +303,7 @@ LAYOUT_ASSUME = [
 PROPS = {
     "C05": {"level": "model_checking", "stages": c05, "assumptions": LAYOUT_ASSUME, "replay": any_replay},
     "C11": {"level": "model_checking", "stages": c11, "assumptions": LAYOUT_ASSUME + GRAPH_ASSUME, "replay": any_replay},
-    "C10": {"level": "model_checking", "stages": c10, "assumptions": GRAPH_ASSUME + LAYOUT_ASSUME, "replay": any_replay},
+    "C10": {"level": "model_checking", "stages": c10, "assumptions": GRAPH_ASSUME + LAYOUT_ASSUME + MM_ASSUME, "replay": any_replay},
     "C15": {"level": "model_checking", "stages": c15, "assumptions": GRAPH_ASSUME + MM_ASSUME, "replay": any_replay},
     "C06": {"level": "model_checking", "stages": c06, "assumptions": GRAPH_ASSUME + ["Ctor.tla models each constructor as the sequence of calls, writes and checks the source performs; lengths beyond the fault bound are honest cases only"], "replay": any_replay},
     "C07": {"level": "fault_enumeration", "stages": c07, "assumptions": GRAPH_ASSUME + ["faults: panic at the k-th next / Clone / callback exit / comparison-hash-format impl, misreported len/size_hint within +-2 and changing between calls, failing allocation 1..3 (child processes); a leak is tolerated only where Ctor.tla leaks the half-built block"], "replay": any_replay},
@@ -299,7 +316,7 @@ PROPS = {
     "C04": {"level": "model_checking", "stages": c04, "assumptions": GRAPH_ASSUME, "replay": any_replay},
     "C08": {"level": "model_checking", "stages": c08, "assumptions": GRAPH_ASSUME + MM_ASSUME, "replay": any_replay},
     "C09": {"level": "model_checking", "stages": c09, "assumptions": GRAPH_ASSUME + MM_ASSUME, "replay": any_replay},
-    "C12": {"level": "model_checking", "stages": c12, "assumptions": GRAPH_ASSUME + LAYOUT_ASSUME, "replay": any_replay},
+    "C12": {"level": "model_checking", "stages": c12, "assumptions": GRAPH_ASSUME + LAYOUT_ASSUME + MM_ASSUME, "replay": any_replay},
 }
 
 
